@@ -8,7 +8,7 @@ package dhcpd
 //vx:entry vxC10History reach=offer,ack,nak,dropped,released,declined,static-added,static-rejected,static-updated,static-removed,recycled,exhausted,restart
 //vx:entry vxC10Full reach=full,offer,ack,nak,released,static-added,static-updated,recycled,exhausted,restart
 //vx:entry vxC10Probe reach=offer,ack,blocked,recycled,restart
-//vx:entry vxC10Protocol tier=thorough reach=offer,ack,nak,dropped,released,declined,recycled,exhausted,restart
+//vx:entry vxC10Protocol tier=thorough reach=offer,ack,nak,dropped,released,declined,recycled,restart
 //vx:stub time.Now vxC10Now
 //vx:stub encoding/json.Marshal vxC10Marshal
 //vx:stub encoding/json.Unmarshal vxC10Unmarshal
